@@ -284,7 +284,7 @@ func negReachG(w *core.World, root *ssa.Function, v ssa.Value, at *ssa.BasicBloc
 
 func guardedNonNeg(b *ssa.BasicBlock, v ssa.Value) bool {
 	for _, f := range core.FactsAt(b) {
-		c, ok := core.AsCmp(f.Cond, f.Val)
+		c, ok := core.FactCmp(f)
 		if !ok {
 			continue
 		}
@@ -1123,7 +1123,7 @@ func (c *senderCtx) phiSetTrueUnderBegin(ph *ssa.Phi, seen map[*ssa.Phi]bool) bo
 	for i, e := range ph.Edges {
 		if b, ok := core.ConstBool(e); ok && b {
 			for _, fct := range core.FactsAt(ph.Block().Preds[i]) {
-				cmp, ok := core.AsCmp(fct.Cond, fct.Val)
+				cmp, ok := core.FactCmp(fct)
 				if ok && cmp.Op == token.EQL && isTxnStatusVal(cmp.X) {
 					if k, isK := core.ConstInt(cmp.Y); isK && k == c.begin {
 						return true
